@@ -537,7 +537,13 @@ fn builtin_round(args: Vec<Rc<Object>>) -> Result<Rc<Object>, String> {
                     return Err(String::from("precision should be between 0 and 18"));
                 }
                 let multiplier = 10i64.pow(*n as u32);
-                let rounded = (f * multiplier as f64).round() / multiplier as f64;
+                // A float of this magnitude has no fractional digits left (and
+                // scaling it could overflow): it is its own rounding
+                let rounded = if f.abs() >= 4503599627370496.0 || !(f * multiplier as f64).is_finite() {
+                    *f
+                } else {
+                    (f * multiplier as f64).round() / multiplier as f64
+                };
                 Ok(Rc::new(Object::Float(rounded)))
             } else {
                 Err(String::from("second argument should be an integer"))
